@@ -386,8 +386,29 @@ Proof. destruct t; cbn; split; intros H; try reflexivity; discriminate. Qed.
 Lemma text_empty_false_iff t : text_empty t = false <-> t <> [].
 Proof. destruct t; cbn; split; intros H; try reflexivity; try discriminate. exfalso; apply H; reflexivity. Qed.
 
-(* an email carries the chain's choice for its subject and for its body (each resolved on its own); it is skipped
-   exactly when one of the two choices is the empty text *)
+(* an email carries the evaluation of the chain's choice for its subject and for its body (each resolved on its
+   own); it is skipped exactly when one of the two is empty as evaluated *)
+Lemma send_email_gen_spec ev_s ev_b cl allowed base subject body trs trb :
+  exists outs useds outb usedb,
+    spec_pick cl allowed base [subject] trs outs useds
+    /\ spec_pick cl allowed base [body] trb outb usedb
+    /\ ((ev_s (hd [] outs) = [] \/ ev_b (hd [] outb) = []) ->
+        send_email_texts_gen ev_s ev_b cl allowed base subject body trs trb = None)
+    /\ (ev_s (hd [] outs) <> [] -> ev_b (hd [] outb) <> [] ->
+        send_email_texts_gen ev_s ev_b cl allowed base subject body trs trb
+        = Some (ev_s (hd [] outs), ev_b (hd [] outb))).
+Proof.
+  unfold send_email_texts_gen.
+  destruct (get_text1_spec cl allowed base subject trs) as (outs & useds & Hs & _ & Es).
+  destruct (get_text1_spec cl allowed base body trb) as (outb & usedb & Hb & _ & Eb).
+  exists outs, useds, outb, usedb. rewrite Es, Eb. cbn [fst].
+  split; [exact Hs|]. split; [exact Hb|]. split.
+  - intros [H|H]; rewrite H; cbn; [reflexivity|].
+    destruct (text_empty (ev_s (hd [] outs))); reflexivity.
+  - intros H1 H2. apply text_empty_false_iff in H1. apply text_empty_false_iff in H2.
+    rewrite H1, H2. reflexivity.
+Qed.
+
 Lemma send_email_spec cl allowed base subject body trs trb :
   exists outs useds outb usedb,
     spec_pick cl allowed base [subject] trs outs useds
@@ -396,33 +417,24 @@ Lemma send_email_spec cl allowed base subject body trs trb :
         send_email_texts cl allowed base subject body trs trb = None)
     /\ (hd [] outs <> [] -> hd [] outb <> [] ->
         send_email_texts cl allowed base subject body trs trb = Some (hd [] outs, hd [] outb)).
-Proof.
-  unfold send_email_texts.
-  destruct (get_text1_spec cl allowed base subject trs) as (outs & useds & Hs & _ & Es).
-  destruct (get_text1_spec cl allowed base body trb) as (outb & usedb & Hb & _ & Eb).
-  exists outs, useds, outb, usedb. rewrite Es, Eb. cbn [fst].
-  split; [exact Hs|]. split; [exact Hb|]. split.
-  - intros [H|H]; rewrite H; cbn; [reflexivity|].
-    destruct (text_empty (hd [] outs)); reflexivity.
-  - intros H1 H2. apply text_empty_false_iff in H1. apply text_empty_false_iff in H2.
-    rewrite H1, H2. reflexivity.
-Qed.
+Proof. exact (send_email_gen_spec (fun t => t) (fun t => t) cl allowed base subject body trs trb). Qed.
 
-(* say_msg, for any evaluation of the localized text: text and audio URL are each the chain's choice; the message is
-   skipped exactly when the evaluated text and the audio URL are both empty; the language it reports is the one used
-   for its TEXT, and for a message without text the one used for its audio URL (its attachment) *)
-Lemma say_msg_gen_spec ev cl allowed base txt audio trt tra :
+(* say_msg, for any evaluation [ev] of the localized text and any rule [keep] about which audio URLs fit into an
+   attachment: text and audio URL are each the chain's choice; the message is skipped exactly when the evaluated text
+   and the kept audio URL are both empty; the language it reports is the one used for its TEXT, and for a message
+   without text the one used for its audio URL (its attachment) *)
+Lemma say_msg_gen_spec ev keep cl allowed base txt audio trt tra :
   exists outt usedt outa useda,
     spec_pick cl allowed base [txt] trt outt usedt
     /\ spec_pick cl allowed base [audio] tra outa useda
-    /\ (ev (hd [] outt) = [] -> hd [] outa = [] ->
-        say_msg_out_gen ev cl allowed base txt audio trt tra = None)
+    /\ (ev (hd [] outt) = [] -> keep (hd [] outa) = [] ->
+        say_msg_out_gen ev keep cl allowed base txt audio trt tra = None)
     /\ (ev (hd [] outt) <> [] ->
-        say_msg_out_gen ev cl allowed base txt audio trt tra
-        = Some {| i_text := ev (hd [] outt); i_audio := hd [] outa; i_lang := usedt |})
-    /\ (ev (hd [] outt) = [] -> hd [] outa <> [] ->
-        say_msg_out_gen ev cl allowed base txt audio trt tra
-        = Some {| i_text := []; i_audio := hd [] outa; i_lang := useda |}).
+        say_msg_out_gen ev keep cl allowed base txt audio trt tra
+        = Some {| i_text := ev (hd [] outt); i_audio := keep (hd [] outa); i_lang := usedt |})
+    /\ (ev (hd [] outt) = [] -> keep (hd [] outa) <> [] ->
+        say_msg_out_gen ev keep cl allowed base txt audio trt tra
+        = Some {| i_text := []; i_audio := keep (hd [] outa); i_lang := useda |}).
 Proof.
   unfold say_msg_out_gen.
   destruct (get_text1_spec cl allowed base txt trt) as (outt & usedt & Ht & _ & Et).
@@ -446,10 +458,26 @@ Lemma say_msg_spec cl allowed base txt audio trt tra :
     /\ (hd [] outt = [] -> hd [] outa <> [] ->
         say_msg_out cl allowed base txt audio trt tra
         = Some {| i_text := []; i_audio := hd [] outa; i_lang := useda |}).
-Proof. exact (say_msg_gen_spec (fun t => t) cl allowed base txt audio trt tra). Qed.
+Proof. exact (say_msg_gen_spec (fun t => t) (fun a => a) cl allowed base txt audio trt tra). Qed.
 
-(* play_audio: a text-less message whose only attachment is the chain's choice for the audio URL, reporting the
-   language of that choice; skipped exactly when the choice is empty *)
+(* play_audio, for any evaluation [ev] and attachment rule [keep]: a text-less message whose only attachment is the
+   (evaluated, kept) chain's choice for the audio URL, reporting the language of that choice; skipped exactly when
+   nothing is left of it *)
+Lemma play_audio_gen_spec ev keep cl allowed base audio tra :
+  exists out used,
+    spec_pick cl allowed base [audio] tra out used
+    /\ (keep (ev (hd [] out)) = [] -> play_audio_out_gen ev keep cl allowed base audio tra = None)
+    /\ (keep (ev (hd [] out)) <> [] ->
+        play_audio_out_gen ev keep cl allowed base audio tra
+        = Some {| i_text := []; i_audio := keep (ev (hd [] out)); i_lang := used |}).
+Proof.
+  unfold play_audio_out_gen.
+  destruct (get_text1_spec cl allowed base audio tra) as (out & used & Hs & _ & E).
+  exists out, used. rewrite E. split; [exact Hs|]. split.
+  - intros H. rewrite H. reflexivity.
+  - intros H. apply text_empty_false_iff in H. rewrite H. reflexivity.
+Qed.
+
 Lemma play_audio_spec cl allowed base audio tra :
   exists out used,
     spec_pick cl allowed base [audio] tra out used
@@ -457,13 +485,7 @@ Lemma play_audio_spec cl allowed base audio tra :
     /\ (hd [] out <> [] ->
         play_audio_out cl allowed base audio tra
         = Some {| i_text := []; i_audio := hd [] out; i_lang := used |}).
-Proof.
-  unfold play_audio_out.
-  destruct (get_text1_spec cl allowed base audio tra) as (out & used & Hs & _ & E).
-  exists out, used. rewrite E. split; [exact Hs|]. split.
-  - intros H. rewrite H. reflexivity.
-  - intros H. apply text_empty_false_iff in H. rewrite H. reflexivity.
-Qed.
+Proof. exact (play_audio_gen_spec (fun t => t) (fun a => a) cl allowed base audio tra). Qed.
 
 (* non-vacuity: a translated subject with an untranslated body; a say_msg whose text comes from one language and
    whose audio from another (the locale follows the text); a play_audio in the contact's language; the skips *)
@@ -543,18 +565,44 @@ Proof.
   - apply IH. lia.
 Qed.
 
-(* the variables a templated message is built with are the chain's choice for the action's template variables
-   (padded/cut to the number of variables the template translation has) *)
+Lemma pad_to_map_nth ev n l i : (i < n)%nat -> (i < length l)%nat ->
+  nth i (pad_to n (map ev l)) [] = ev (nth i l []).
+Proof.
+  intros Hi Hl. rewrite pad_to_nth by exact Hi.
+  rewrite (nth_indep (map ev l) [] (ev [])) by (rewrite map_length; exact Hl).
+  apply map_nth.
+Qed.
+
+(* the variables a templated message is built with are the evaluations of the chain's choice for the action's
+   template variables, one by one (padded with "" / cut to the number of variables the template translation has) *)
+Lemma template_variables_gen_spec ev cl allowed base n vars tr :
+  exists out used,
+    spec_pick cl allowed base vars tr out used
+    /\ length (template_variables_gen ev cl allowed base n vars tr) = n
+    /\ (forall i, (i < n)%nat -> (i < length out)%nat ->
+          nth i (template_variables_gen ev cl allowed base n vars tr) [] = ev (nth i out []))
+    /\ (forall i, (i < n)%nat -> (length out <= i)%nat ->
+          nth i (template_variables_gen ev cl allowed base n vars tr) [] = []).
+Proof.
+  unfold template_variables_gen.
+  pose proof (get_text_spec cl allowed base vars tr) as H.
+  destruct (get_text cl allowed base vars tr) as [out used]. cbn [fst].
+  exists out, used. split; [exact H|]. split; [apply pad_to_length|]. split.
+  - intros i Hi Hl. apply pad_to_map_nth; assumption.
+  - intros i Hi Hl. rewrite pad_to_nth by exact Hi. apply nth_overflow. rewrite map_length. exact Hl.
+Qed.
+
 Lemma template_variables_spec cl allowed base n vars tr :
   exists out used,
     spec_pick cl allowed base vars tr out used
     /\ length (template_variables cl allowed base n vars tr) = n
     /\ forall i, (i < n)%nat -> nth i (template_variables cl allowed base n vars tr) [] = nth i out [].
 Proof.
-  unfold template_variables.
+  unfold template_variables, template_variables_gen.
   pose proof (get_text_spec cl allowed base vars tr) as H.
   destruct (get_text cl allowed base vars tr) as [out used]. cbn [fst].
-  exists out, used. split; [exact H|]. split; [apply pad_to_length|]. intros i Hi. apply pad_to_nth; exact Hi.
+  exists out, used. split; [exact H|]. rewrite map_id. split; [apply pad_to_length|].
+  intros i Hi. apply pad_to_nth; exact Hi.
 Qed.
 
 Example template_variables_example :
